@@ -1486,6 +1486,26 @@ func (x *ctx) run(st *state, fr *frame, b *ssa.BasicBlock, idx int, prev *ssa.Ba
 			fr.regs[in] = m
 		case *ssa.Next:
 			fr.regs[in] = x.mapNext(st, fr, in)
+		case *ssa.Select:
+			// a select over receive operations: any ready case may be chosen (a blocking select chooses one of its cases,
+			// a non-blocking one may also take the default, index -1); the received values are arbitrary
+			for _, ss := range in.States {
+				if ss.Dir != types.RecvOnly {
+					x.fail("select with a send case is outside the supported subset in %s", fr.fn)
+				}
+			}
+			x.assumed["select: any receive case may be chosen; received values are arbitrary (channels carry no content in the model)"] = true
+			idx := x.freshTerm("selected", bvSort(64))
+			lo := int64(0)
+			if !in.Blocking {
+				lo = -1
+			}
+			st.define(fmt.Sprintf("(and (bvsle %s %s) (bvslt %s %s))", bvlit(uint64(lo), 64), idx.s, idx.s, bvlit(uint64(len(in.States)), 64)))
+			fields := []val{scalar(idx), scalar(x.freshTerm("recvok", sBool))}
+			for _, ss := range in.States {
+				fields = append(fields, x.freshVal("received", ss.Chan.Type().Underlying().(*types.Chan).Elem()))
+			}
+			fr.regs[in] = val{agg: true, fields: fields}
 		case *ssa.Go:
 			x.assumed["go statement not modelled (spawned goroutine body is not part of the sequential path)"] = true
 		case *ssa.Defer:
@@ -1627,8 +1647,6 @@ func (x *ctx) run(st *state, fr *frame, b *ssa.BasicBlock, idx int, prev *ssa.Ba
 				x.oblige(st, "no-panic", "", "panic", "false", "explicit panic reachable")
 			}
 			return x.unwind(st, fr)
-		case *ssa.Select:
-			x.fail("select outside the supported subset in %s", fr.fn)
 		default:
 			x.fail("unsupported instruction %T in %s: %s", in, fr.fn, in)
 		}
